@@ -151,7 +151,9 @@ func escape(s string, m map[rune]string) string {
 				c = Demeta(c)
 			}
 
-			if unicode.IsPrint(c) {
+			// (\xHH is read back with two hexadecimal digits at most: characters
+			// above U+00FF are written as they are, printable or not.)
+			if unicode.IsPrint(c) || c > 0xff {
 				s += string(c)
 			} else {
 				s += fmt.Sprintf(`\x%02x`, c)
